@@ -25,8 +25,6 @@ Definition quote_byte (b : byte) : bytes :=
   end.
 Definition fmt_quoted (body : bytes) : bytes := flat_map quote_byte body ++ [x0a].
 
-Definition blen (body : bytes) : N := N.of_nat (length body).
-
 Definition msgpack_hdr (n : N) : bytes :=
   if n <? 256 then [xc4; n2b n]
   else if n <? 65536 then xc5 :: be_enc 2 n
@@ -72,13 +70,6 @@ Fixpoint split_lines_acc (acc : bytes) (l : bytes) : list bytes :=
 Definition split_lines := split_lines_acc [].
 
 (* msgpack bin stream reader; fuel = number of objects at most *)
-Fixpoint take_exact {A} (n : nat) (l : list A) : option (list A * list A) :=
-  match n, l with
-  | O, _ => Some ([], l)
-  | S n', x :: r => match take_exact n' r with Some (a, b) => Some (x :: a, b) | None => None end
-  | S _, [] => None
-  end.
-
 Definition dec_msgpack_one (l : bytes) : option (bytes * bytes) :=
   match l with
   | xc4 :: a :: r => take_exact (N.to_nat (b2n a)) r
